@@ -99,3 +99,8 @@ def cases(tier, seed, ctx=None):
         if j % 2 and val[3] and val[3][-1] == [1]:
             val = val[:3] + [val[3][:-1]] + val[4:]      # the upstream never closes: its socket is still connected at the teardown
         yield (fam, val, "proxy-teardown")
+
+    # a TLS server destroyed while handshakes are pending: the accepted sockets go with it, nothing completes afterwards
+    for n in (1, 2, 3):
+        for after in (0, 1):
+            yield ("tls", [4, n, after], "tls-destroyed-mid-handshake")
